@@ -15,6 +15,7 @@ pub static DEF: PropDef = PropDef {
     assumptions: &["sparse files on the sandbox file system report st_size faithfully", "ctime cannot be set; -ctime/-cmin are exercised in C15 with read-back timestamps", "N > 2^64-1 is an invalid operand (C11), not generated here"],
     run,
     replay,
+    fuzz: None,
 };
 
 const NOW_S: u64 = 2_000_000_000;
